@@ -19,6 +19,9 @@ import (
 
 	"github.com/99designs/gqlgen/graphql"
 	"github.com/99designs/gqlgen/graphql/executor"
+	"github.com/99designs/gqlgen/graphql/handler"
+	"github.com/99designs/gqlgen/graphql/handler/transport"
+	"net/http/httptest"
 )
 
 // Cmd is one line of the probe protocol (stdin, ndjson).
@@ -54,6 +57,7 @@ type Resp struct {
 	HasPath bool   `json:"haspath"`
 	Label   string `json:"label"`
 	Raw     string `json:"raw,omitempty"`
+	Status  int    `json:"status"`
 }
 
 type Result struct {
@@ -179,6 +183,7 @@ func (p *Probe) Exec(c *Cmd) *Result {
 	t0 := time.Now()
 	done := make(chan struct{})
 	var resps []*graphql.Response
+	var httpResps []Resp
 	go func() {
 		defer close(done)
 		defer func() {
@@ -187,6 +192,10 @@ func (p *Probe) Exec(c *Cmd) *Result {
 				res.Dirty = true
 			}
 		}()
+		if c.Mode == "http" {
+			httpResps = p.execHTTP(base, c, res)
+			return
+		}
 		ctx := graphql.StartOperationTrace(base)
 		opCtx, errs := ex.CreateOperationContext(ctx, &graphql.RawParams{Query: c.Query, OperationName: c.OpName, Variables: c.Vars})
 		if errs != nil {
@@ -219,6 +228,7 @@ func (p *Probe) Exec(c *Cmd) *Result {
 		for _, r := range resps {
 			res.Resps = append(res.Resps, projectResp(r, res))
 		}
+		res.Resps = append(res.Resps, httpResps...)
 	}
 	cancel()
 	run.Finish()
@@ -473,4 +483,46 @@ func wrapOf(t *ast.Type) []string {
 		}
 	}
 	return out
+}
+
+// execHTTP runs the operation through handler.Server + the POST transport.
+func (p *Probe) execHTTP(base context.Context, c *Cmd, res *Result) []Resp {
+	srv := handler.New(p.ES)
+	srv.AddTransport(transport.POST{})
+	srv.SetRecoverFunc(RecoverFunc)
+	srv.SetErrorPresenter(ErrorPresenter)
+	srv.Use(faultExt{})
+	body, _ := json.Marshal(map[string]any{"query": c.Query, "operationName": c.OpName, "variables": c.Vars})
+	req := httptest.NewRequest("POST", "/query", strings.NewReader(string(body))).WithContext(base)
+	req.Header.Set("Content-Type", "application/json")
+	rec := httptest.NewRecorder()
+	srv.ServeHTTP(rec, req)
+	raw := rec.Body.Bytes()
+	out := Resp{Errs: []ErrP{}, HasNext: "-", Status: rec.Code}
+	var env struct {
+		Data   json.RawMessage `json:"data"`
+		Errors []struct {
+			Message string   `json:"message"`
+			Path    ast.Path `json:"path"`
+		} `json:"errors"`
+	}
+	if err := json.Unmarshal(raw, &env); err != nil {
+		res.BadJSON = string(raw)
+		out.Data = Tagged{"t": "bad"}
+		return []Resp{out}
+	}
+	if len(env.Data) > 0 {
+		t, err := Tag(env.Data)
+		if err != nil {
+			res.BadJSON = string(raw)
+			t = Tagged{"t": "bad"}
+		}
+		out.Data = t
+	} else {
+		out.Data = Tagged{"t": "absent"}
+	}
+	for _, e := range env.Errors {
+		out.Errs = append(out.Errs, ErrP{P: PathKey(e.Path), C: ErrClass(e.Message)})
+	}
+	return []Resp{out}
 }
